@@ -183,6 +183,14 @@ func (s *State) assume1(t *Term, rw bool) {
 		if a.IsLit && !b.IsLit {
 			a, b = b, a
 		}
+		if !b.IsLit && !a.IsLit && a.Sort == SInt && len(s.eqs) > 0 {
+			// x = e where e is a literal under the equalities known so far
+			if nb := s.normInt(b); nb.IsLit && isAtomTerm(a) {
+				b = nb
+			} else if na := s.normInt(a); na.IsLit && isAtomTerm(b) {
+				a, b = b, na
+			}
+		}
 		if b.IsLit && !a.IsLit && a.Sort == SInt && a.Size() < 40 {
 			if s.eqs == nil {
 				s.eqs = map[string]*Term{}
@@ -383,6 +391,7 @@ type Oblig struct {
 	Bounded   string
 	replayed  bool
 	paramIn   map[string]*Term
+	CrossConfirmed []string // thorough tier: other solvers that also proved the obligation
 	Retried   bool // discharged only in the sequential retry with the larger budget
 	Candidate bool // Model is a candidate from a weakened query (to be confirmed by replay)
 }
